@@ -15,11 +15,29 @@ V = [-INF, -1e308, -1.5, nextafter(-1.0, -INF), -1.0, nextafter(-1.0, 0.0), -5e-
      nextafter(1.0, 0.0), 1.0, nextafter(1.0, 2.0), 2.5, 1e308, INF, NAN]
 
 
+def laid_out(pos):
+    """The position as an array of the declared shape in one of three memory layouts, chosen by the content (so that a replay of the
+    same input uses the same one): C-contiguous, a row-strided view of a larger buffer (a warm start from a design matrix), Fortran order.
+    Limit enforcement must not depend on it."""
+    arr = np.array(pos, dtype=float)
+    if arr.ndim != 2 or arr.size == 0:
+        return arr
+    flat = [v for v in arr.ravel() if v == v and abs(v) != float('inf')]
+    pick = (7 * arr.shape[0] + arr.shape[1] + (int(min(abs(flat[0]), 1e6) * 10) if flat else 0)) % 3
+    if pick == 1:
+        big = np.full((2 * arr.shape[0], 2 * arr.shape[1]), 123.456)
+        big[::2, ::2] = arr
+        return big[::2, ::2]
+    if pick == 2:
+        return np.asfortranarray(arr)
+    return arr
+
+
 def run_agent(lbs, ubs, pos):
     a = Agent(n_variables=max(1, len(pos)), n_dimensions=max(1, len(pos[0]) if pos else 1))
     a.lb = np.array(lbs, dtype=float)
     a.ub = np.array(ubs, dtype=float)
-    a.position = np.array(pos, dtype=float)
+    a.position = laid_out(pos)
     a.check_limits()
     return keys2d(a.position)
 
@@ -34,7 +52,7 @@ def run_space(cls, lbs, ubs, positions, int_bounds=False):
     s._lb = np.array(lbs, dtype=int if int_bounds else float)
     s._ub = np.array(ubs, dtype=int if int_bounds else float)
     for a, p in zip(s.agents, positions):
-        a.position = np.array(p, dtype=float)
+        a.position = laid_out(p)
     s.check_limits()
     return [keys2d(a.position) for a in s.agents]
 
